@@ -150,6 +150,7 @@ class CloseMonitor:
             self.eps[ep.name] = st
             ep.started = False
             self._wrap(sim, ep, st)
+            st.rec = RecTap(ep.conn, st)
             role = "client" if ep.is_client else "server"
             st.ops.append(f"close.new {role}")
             st.outs.append("ok | " + self.show(st))
@@ -230,7 +231,9 @@ class CloseMonitor:
 
         def initialize(peer_cid):
             st.sub.append(["init"])
-            return orig_init(peer_cid)
+            res = orig_init(peer_cid)
+            st.rec.spaces_replaced()
+            return res
         conn._initialize = initialize
 
         orig_idle = conn._idle_timeout
@@ -261,6 +264,9 @@ class CloseMonitor:
             # the model is fed the base probe timeout computed independently at
             # the moment the closing period starts
             st.sub.append(["pto", base_pto(conn)])
+            # product glue: the recovery MODEL's getProbeTimeout at this moment must
+            # be the value the close model is fed
+            st.rec.probe("pto", fbits(base_pto(conn)))
             try:
                 return orig_cb(is_initiator=is_initiator, now=now)
             finally:
@@ -318,6 +324,9 @@ class CloseMonitor:
                 loss=c._loss.get_loss_detection_time(),
                 pacing=c._pacing_at,
             )
+            # product glue: the recovery MODEL's getLossDetectionTime is the `loss`
+            # source the close model's get_timer reads
+            st.rec.probe("ldt", _of(st.pre["loss"]))
         # for the oracle: probe timeout / negotiated idle timeout from the RTT
         # estimator and the transport parameters (never from the methods under test)
         st.pre["pto"] = base_pto(c)
@@ -527,3 +536,101 @@ def raw_deliver(sim, dst, data, src=None):
     d = {"id": -2, "src": src, "dst": dst, "data": bytes(data), "to": dst.addr, "from": src.addr,
          "t": sim.now, "injected": True}
     sim.deliver(d)
+
+
+# ------------------------------------------------ recovery component (product)
+class RecTap:
+    """Feeds the recovery model (driver prefix `rec.`) from the calls the real
+    connection makes on its own QuicPacketRecovery object during the run, so that
+    the product CloseTimer x Recovery (AQ.Model.ConnTimers) is compared with the
+    real connection: same canonical lines as harness/impl_recovery.py, computed
+    from the connection's `_loss` after every observed call."""
+
+    def __init__(self, conn, st):
+        from .impl_recovery import RecoveryImpl
+        self.fmt = RecoveryImpl()            # canonical `show()` on a given recovery object
+        loss = conn._loss
+        self.conn, self.loss, self.st = conn, loss, st
+        self.fmt.rec = loss
+        self.ops, self.outs = [], []
+        self.glue = []                       # (index of a rec.ldt line, "ldt"|"pto", bits the close model was fed)
+        self.depth = 0
+        self.uid = 0
+        self.mad = loss.max_ack_delay
+        algo = conn._configuration.congestion_control_algorithm
+        self.ops.append(f"rec.new {algo} {conn._max_datagram_size} {len(loss.spaces)} "
+                        f"{fbits(conn._configuration.initial_rtt)}")
+        self.outs.append("ok | " + self.fmt.show())
+        tap = self
+
+        orig_probe = loss._send_probe
+
+        def send_probe():
+            tap.fmt.probes += 1
+            return orig_probe()
+        loss._send_probe = send_probe
+
+        def wrap(name, line_of):
+            orig = getattr(loss, name)
+
+            def f(*a, **kw):
+                if tap.depth:
+                    return orig(*a, **kw)
+                tap.sync_mad()
+                line = line_of(*a, **kw)
+                tap.depth += 1
+                try:
+                    res = orig(*a, **kw)
+                except Exception as e:  # noqa
+                    tap.emit(line, f"err {type(e).__name__} | " + tap.fmt.show())
+                    raise
+                finally:
+                    tap.depth -= 1
+                tap.emit(line, "ok | " + tap.fmt.show())
+                return res
+            setattr(loss, name, f)
+
+        def sent_line(packet, space):
+            uid = tap.uid
+            tap.uid += 1
+            packet.delivery_handlers.append((tap.fmt._handler, (uid,)))
+            return (f"rec.sent {tap.idx(space)} {packet.packet_number} {packet.sent_bytes} "
+                    f"{_b(packet.in_flight)} {_b(packet.is_ack_eliciting)} {_b(packet.is_crypto_packet)} "
+                    f"{fbits(packet.sent_time)}")
+
+        def ack_line(ack_rangeset, ack_delay, now, space):
+            rs = ",".join(f"{r.start}-{r.stop}" for r in ack_rangeset) or "[]"
+            return f"rec.ack {tap.idx(space)} {rs} {fbits(ack_delay)} {fbits(now)}"
+
+        wrap("on_packet_sent", sent_line)
+        wrap("on_ack_received", ack_line)
+        wrap("on_loss_detection_timeout", lambda now: f"rec.timeout {fbits(now)}")
+        wrap("discard_space", lambda space: f"rec.discard {tap.idx(space)}")
+        wrap("reschedule_data", lambda now: f"rec.resched {fbits(now)}")
+
+    def idx(self, space):
+        for i, s in enumerate(self.loss.spaces):
+            if s is space:
+                return i
+        return 99
+
+    def emit(self, line, out):
+        self.ops.append(line)
+        self.outs.append(out)
+
+    def sync_mad(self):
+        if self.loss.max_ack_delay != self.mad:
+            self.mad = self.loss.max_ack_delay
+            self.emit(f"rec.mad {fbits(self.mad)}", "ok | " + self.fmt.show())
+
+    def spaces_replaced(self):
+        self.sync_mad()
+        self.emit(f"rec.spaces {len(self.loss.spaces)}", "ok | " + self.fmt.show())
+
+    def probe(self, what, fed_bits):
+        """a `rec.ldt` line: the model's loss-detection time / probe timeout vs the real ones"""
+        self.sync_mad()
+        loss = self.loss
+        pv = _b(loss.peer_completed_address_validation)
+        self.glue.append((len(self.ops), what, fed_bits))
+        self.emit(f"rec.ldt {pv}", f"ok {_of(loss.get_loss_detection_time())} pto={fbits(loss.get_probe_timeout())}")
